@@ -144,6 +144,71 @@ def arbitrary_blocks(ctx, res):
     chain.unpatch()
 
 
+def wide_store(ctx, res):
+    """a store with many rows in which every height holds competing blocks: whatever way the rows are fetched (one cursor, pages
+    of any size up to the number of rows, ranges of heights), every block written comes back.  Two layouts, so that for every k
+    the k-th and (k+1)-th row in height order are siblings in one of them: pairs at every height ≥ 1, and pairs at every height
+    ≥ 2 above a single block at height 1."""
+    from . import gens
+    from skepticoin.datatypes import Block, BlockHeader, BlockSummary, Transaction, Input, Output, OutputReference
+    rng = ctx.rng
+    heights = ctx.scale(560, 2300)
+    chain.patch(horizon=-1)
+    for layout in (0, 1):
+        path = os.path.join(os.getcwd(), "c08_wide_%d.db" % layout)
+        if os.path.exists(path):
+            os.remove(path)
+        store = blockstore.BlockStore(path)
+        g = chain.genesis_block()
+        written = {g.hash(): g}
+        level = [g]
+        pending = [g]
+        n = 0
+        for h in range(1, heights + 1):
+            width = 1 if (layout == 1 and h == 1) else 2
+            nxt = []
+            for _ in range(width):
+                parent = rng.choice(level)
+                n += 1
+                t = Transaction([Input(OutputReference(b"\x00" * 32, 0), gens.signature(rng))],
+                                [Output(n, gens.pubkey(rng))])
+                sm = BlockSummary(h, parent.hash(), gens.rb(rng, 32), h, gens.rb(rng, 32), n)
+                b = Block(BlockHeader(sm, gens.evidence(rng)), [t])
+                nxt.append(b)
+                pending.append(b)
+                written[b.hash()] = b
+            level = nxt
+            if len(pending) >= 400 or h == heights:
+                for b in pending:
+                    store.add_block_to_buffer(b)
+                store.flush_blocks_to_disk()
+                pending = []
+        store.close()
+        store = blockstore.BlockStore(path)
+        got = list(store.read_blocks_from_disk())
+        store.close()
+        os.remove(path)
+        res.case(("wide", layout, heights), nontrivial=True)
+        res.count("wide_store_rows", len(written))
+        ids = [b.hash() for b in got]
+        missing = [h_ for h_ in written if h_ not in set(ids)]
+        if missing or len(ids) != len(set(ids)) or len(ids) != len(written):
+            m = written[missing[0]] if missing else None
+            res.violations.append({"kind": "the set of blocks read back differs from the set written (many rows, competing "
+                                           "blocks at every height)", "layout": layout, "written": len(written),
+                                   "read_back": len(ids), "missing": len(missing),
+                                   "first_missing_height": m.height if m else None,
+                                   "first_missing": m.serialize().hex() if m else None})
+        seen = set()
+        for b in got:
+            if b.height > 0 and b.previous_block_hash not in seen and b.previous_block_hash in written:
+                res.violations.append({"kind": "a block is read back before its parent", "layout": layout,
+                                       "height": b.height})
+                break
+            seen.add(b.hash())
+    chain.unpatch()
+
+
 def concurrent_flush(store, late):
     """flush_blocks_to_disk with a second thread that hands `late` to the buffer at the moment the first has written its rows
     and not yet emptied the buffer, and then flushes itself (one fixed schedule of the two writers; with the store's lock the
@@ -176,6 +241,7 @@ def run(ctx):
     res = kit.Result()
     rng = ctx.rng
     arbitrary_blocks(ctx, res)
+    wide_store(ctx, res)
     n_scen = ctx.scale(8, 40)
     for si in range(n_scen):
         lines = chain.patch(horizon=-1)
